@@ -255,6 +255,35 @@ def work(arg):
                     out['viol'].append(core.make_violation(sig, f'{name} on {iso_name} converted with convert({conv}): an isotherm whose columns are called p_meas/uptake gives '
                                                                 f'{"a result deviating by %.3g" % dev if o.ok else o.brief()[:150]} from the same content under the default column names',
                                                            {'isotherm': iso_name, 'conversion': conv}))
+    # a supplementary column holding a RECORDED saturation pressure (as AIF files carry it) is data like any other: results as stored in
+    # absolute pressure == results after the permanent conversion to relative pressure
+    for col in ('p0', 'pressure_saturation', 'saturation_pressure'):
+        stored = clone(base)
+        if not core.call(stored.convert_pressure, mode_to='absolute', unit_to='kPa').ok:
+            break
+        d = stored.data_raw.copy()
+        d[col] = 95.0 + 0.01 * numpy.arange(len(d))
+        withcol = pygaps.PointIsotherm(isotherm_data=d, pressure_key=stored.pressure_key, loading_key=stored.loading_key, **stored.to_dict())
+        conv = pygaps.PointIsotherm(isotherm_data=d.copy(), pressure_key=stored.pressure_key, loading_key=stored.loading_key, **stored.to_dict())
+        if not core.call(conv.convert_pressure, mode_to='relative').ok:
+            continue
+        for name in names:
+            if name.startswith(('psd_dft', 'initial_henry')):
+                continue
+            want = core.call(E[name][0], withcol, timeout=600)
+            if not want.ok:
+                continue
+            o = core.call(E[name][0], conv, timeout=600)
+            out['ev'] += 1
+            out['nt'] += 1
+            dev = cmp_result(want.value, o.value, E[name][1], E[name][2])[0] if o.ok else float('inf')
+            if dev > E[name][1]:
+                sig = {'check': 'recorded-saturation-pressure-column', 'entry': name.split('(')[0]}
+                k = core.sig_key(sig)
+                if k not in seen:
+                    seen.add(k)
+                    out['viol'].append(core.make_violation(sig, f'{name} on {iso_name} (absolute kPa, with a supplementary column {col!r}): after convert_pressure(mode_to="relative") the result '
+                                                                f'{"deviates by %.3g" % dev if o.ok else o.brief()[:120]} from the result on the isotherm as stored', {'isotherm': iso_name, 'column': col}))
     # a working copy made from the isotherm's own table is converted: the ORIGINAL, never converted, still gives its results
     for how in ('from_isotherm(iso, isotherm_data=iso.data())', 'PointIsotherm(isotherm_data=iso.data_raw, **iso.to_dict())'):
         for conv in (dict(loading_basis='molar', loading_unit='mol'), dict(pressure_mode='absolute', pressure_unit='kPa'), dict(loading_basis='mass', loading_unit='mg')):
@@ -410,15 +439,36 @@ def check_alpha_reference(ctx):
             nt += 1
             dev = max(abs(o.value[k] - b0.value[k]) / abs(b0.value[k]) for k in ('slope', 'area')) if o.ok else float('inf')
             if dev > TOL_LIN:
-                pclass = 'absolute bar' if (pm, pu) == ('absolute', 'bar') else ('relative' if pm != 'absolute' else 'absolute other unit')
+                pclass = 'absolute bar' if (pm, pu) == ('absolute', 'bar') else (pm if pm != 'absolute' else 'absolute other unit')
                 lclass = 'molar' if lb == 'molar' else 'non-molar'
-                sig = {'check': 'unit-invariance', 'entry': 'alpha_s', 'converted': who}
+                sig = {'check': 'unit-invariance', 'entry': 'alpha_s', 'converted': who, 'pressure': pclass, 'loading': lclass}
                 k = core.sig_key(sig)
                 if k in seen:
                     continue
                 seen.add(k)
                 ctx.violate(core.make_violation(sig, f'alpha_s with the {who} stored as {(pm, pu, lb, lu)}: {({k: o.value[k] for k in ("slope", "area")} if o.ok else o.brief()[:160])} '
                                                      f'instead of {({k: b0.value[k] for k in ("slope", "area")})}', {'converted': who, 'rep': (pm, pu, lb, lu)}))
+    # an isotherm used as its OWN reference (the same object in both roles), in every molar unit and on either branch, against a twin object
+    for lu in ('mmol', 'mol', 'cm3(STP)', 'kmol'):
+        for br in ('ads', 'des'):
+            a_, t1, t2 = clone(sample0), clone(sample0), clone(sample0)
+            for x_ in (a_, t1, t2):
+                x_.convert_loading(unit_to=lu)
+            lim = (0.4, 1.1) if br == 'ads' else None
+            kwb = dict(branch=br, branch_ref=br)
+            own = core.call(lambda: pgc.alpha_s(a_, a_, t_limits=lim, **kwb)['results'])
+            twin = core.call(lambda: pgc.alpha_s(t1, t2, t_limits=lim, **kwb)['results'])
+            ev += 1
+            if not twin.ok:
+                continue
+            nt += 1
+            same = own.ok and len(own.value) == len(twin.value) and all(
+                abs(x['slope'] - y['slope']) <= 1e-9 * abs(y['slope']) and abs(x['area'] - y['area']) <= 1e-9 * abs(y['area']) for x, y in zip(own.value, twin.value))
+            if not same:
+                ctx.violate(core.make_violation({'check': 'self-reference', 'entry': 'alpha_s', 'branch': br, 'unit': 'mmol' if lu == 'mmol' else 'other molar unit'},
+                                                f'alpha_s(iso, iso, branch={br}) with ONE object in both roles (loading in {lu}): '
+                                                f'{[(x["slope"], x["area"]) for x in own.value][:2] if own.ok else own.brief()[:120]} but with an identical twin as reference '
+                                                f'{[(x["slope"], x["area"]) for x in twin.value][:2]}', {'unit': lu, 'branch': br}))
     # the same reference object used, converted in place within the representations alpha_s supports, used again
     for conv in (dict(loading_unit='mol'), dict(loading_unit='cm3(STP)')):
         s_, r_ = clone(sample0), clone(ref0)
